@@ -1,6 +1,6 @@
 (* C07 Admission: only fully funded, well-formed orders enter the book. *)
 From ATS Require Import Prelude Dec DecFacts Uuid Semver Types Contract Tactics Spec Inv InvAsk InstProofs AskProofs
-  BidFacts InvBid InvStep ExitProofs Ledger AdmitProofs MatchLive AdmitLive.
+  BidFacts InvBid InvStep ExitProofs Ledger AdmitProofs MatchLive AdmitLive Known.
 
 (* asks, both directions, every state and environment: a create-ask request is accepted IF AND ONLY IF the id is a
    canonical hyphenated UUID, base/quote/price are non-empty, size >= 1, the base is the contract's base or a
@@ -97,3 +97,18 @@ Proof.
   apply dec_from_u128_ok in Hdn as [Hs _]. apply dec_from_u128_ok in Hdq as [Hq _]. split; assumption.
 Qed.
 Print Assumptions C07_capacity.
+
+(* Inside K_capacity the converse is FALSE of the code (recorded finding, corpus/known/k_capacity.hist): in a reachable
+   state a bid of 2^96 units at price 1 with exactly 2^96 attached -- every listed admission condition holds -- is refused,
+   the same bid one unit smaller is admitted. *)
+Theorem C07_refuted_in_K_capacity :
+  exists e st sender id1 id2 n,
+    Inv st /\ n = 2 ^ 96 /\
+    is_ok (execute FX e st sender [mkcoin n "q"] (CreateBid id1 "base" None "1" "q" n n)) = false /\
+    is_ok (execute FX e st sender [mkcoin (n - 1) "q"] (CreateBid id2 "base" None "1" "q" (n - 1) (n - 1))) = true.
+Proof.
+  exists k_env, (k_start k_cap_inst), "buyer", kB, kB2, 79228162514264337593543950336.
+  split; [apply k_start_inv; vm_compute; reflexivity|]. split; [vm_compute; reflexivity|].
+  destruct k_capacity_witness as (_ & H1 & H2). split; [exact H1|exact H2].
+Qed.
+Print Assumptions C07_refuted_in_K_capacity.
